@@ -81,6 +81,8 @@ impl Source {
 
                 let mut file = BufWriter::new(file);
                 file.write_all(content.as_bytes())
+                    .map_err(|err| ResourceError::io_error(location, err))?;
+                file.flush()
                     .map_err(|err| ResourceError::io_error(location, err))
             }
             Self::Memory(data) => {
